@@ -13,8 +13,8 @@ claimed = {
    technique="contract-based deductive verification: weakest-precondition VCs over go/ssa with //@ contracts, discharged by z3/cvc5", design="7 (C06)"),
 
  "C05": dict(category="proof",
-   text="The memory backend's versioning functions (bucket.put, rm, rmVersion, object, objectVersion, setVersioning and the Backend methods built on them) are verified against one-step contracts over the abstract view {current version} + {archived versions}: an enabled put archives the previous current version under its id and keeps every archived entry, a plain delete adds a marker and archives, deleting a version removes exactly that id and promotes the newest remaining one, lookups by id return the entry filed under it. All inputs, no bound. Two obligations (history of put/rm while suspended) fail and are listed as known finding D20.",
-   note="Relative to the bucket representation invariant bucketInv/idsIssued, which every method assumes at entry; its preservation by put/rm/rmVersion is stated but NOT discharged (listed in the evidence as waived obligations). Trusted: skiplist model (libcontracts/skiplist.gvc), version-id generator freshness (funcfield bucket.versionGen).",
+   text="The memory backend's versioning functions (bucket.put, rm, rmVersion, object, objectVersion, setVersioning and the Backend methods built on them) are verified against one-step contracts over the abstract view {current version} + {archived versions}: an enabled put archives the previous current version under its id and keeps every archived entry, a plain delete adds a marker and archives, deleting a version removes exactly that id and promotes the newest remaining one, lookups by id return the entry filed under it. All inputs, no bound. Two obligations (history of put/rm while suspended) fail and are listed as known finding D20. HEAD/GET by version id reach the backend with the requested id (D16 fixed).",
+   note="The bucket representation invariant bucketInv/idsIssued is assumed at entry and proved preserved by put, rm and rmVersion (and re-established for the addressed bucket by the Backend methods); separation between different buckets' structures is assumed. Trusted: skiplist model (libcontracts/skiplist.gvc), version-id generator freshness (funcfield bucket.versionGen).",
    technique=T, design="7 (C05)"),
  "C08": dict(category="proof",
    text="Digest and length checks (newHashingReader, hashingReader.Read, ReadAll) and the rejection paths of createObject, copyObject, CopyObject, UploadPart, CompleteMultipartUpload and s3mem PutObject are verified: a rejected call returns with the stored state unchanged (unchanged() / store_gen clauses), the digest is compared at EOF, a length mismatch is IncompleteBody.",
@@ -34,7 +34,7 @@ claimed = {
    technique=T+" (theory of strings)", design="7 (C17)"),
  "C02": dict(category="proof",
    text="One-step contracts, taken from the reference semantics in the statement, are discharged for the memory backend's bucket and object operations (BucketExists, CreateBucket, DeleteBucket, ForceDeleteBucket, HeadObject, GetObject, PutObject, DeleteObject and bucket.put/rm/object under them) over the abstract view bucket name -> key -> current object, and for the root-package handlers that map backend answers to S3 errors (ensureBucketExists, headBucket, deleteBucket, deleteObject, deleteMulti, CopyObject, ErrorCode.Status): absent bucket -> NoSuchBucket, existing bucket on create -> BucketAlreadyExists, non-empty bucket -> BucketNotEmpty, absent or delete-marked key -> NoSuchKey, put then get returns what was put, delete is idempotent. The sequence claim follows by induction over one-step contracts that all preserve and assume the same invariant. All inputs, no bound.",
-   note="Memory backend only: the bolt and afero backends are outside the verified set (no contracts; DESIGN.md section 10), so 'all bundled backends agree' is not decided here. The preservation of the bucket invariant by put is stated but waived (listed in the evidence). Trusted: skiplist model, Backend interface contracts at the handler level.",
+   note="Memory backend only: the bolt and afero backends are outside the verified set (no contracts; DESIGN.md section 10), so 'all bundled backends agree' is not decided here. The per-bucket representation invariant is proved preserved by put/rm/rmVersion and re-established for the addressed bucket by PutObject/DeleteObject/DeleteObjectVersion; that distinct buckets never share an index, object or version list is assumed at method entry, not proved. Trusted: skiplist model, Backend interface contracts at the handler level.",
    technique=T, design="7 (C02)"),
  "C03": dict(category="proof",
    text="s3mem.(*Backend).ListBucket is verified, for every bucket content, prefix, marker and page size, against contracts taken from the statement over the sorted key index of the skiplist model: soundness (every Contents entry is a live, matching, non-grouped key after the marker, with the stored Size), completeness (every live matching key among those visited is either in Contents or represented in the prefix set), strict ascending order, common prefixes are de-duplicated and each stems from a listed key; goskipiter.(New, Next, Key, Value, Seek) and ObjectList.(Add, AddPrefix) carry the contracts it relies on. Loop invariants with no bound on the number of keys.",
